@@ -183,10 +183,10 @@ structure ArrFacts (a : Arrays) : Prop where
   n_pos : 0 < a.1.length
   len_wc : a.2.1.length = a.1.length
   len_st : a.2.2.length = a.1.length
-  last : ∀ v, a.1[a.1.length - 1]? = some v → v ≠ none
-  blank_st : ∀ i v w, a.1[i]? = some v → a.2.2[i]? = some w → (v = none ↔ w = none)
-  blank_wc : ∀ i w, a.1[i]? = some none → a.2.1[i]? = some w → w = none
-  code : ∀ i ch, a.2.2[i]? = some (some ch) → Ssm.isCode ch = true ∧ ch ∈ templateChars
+  last : ∀ v : Option Nat, a.1[a.1.length - 1]? = some v → v ≠ none
+  blank_st : ∀ (i : Nat) (v : Option Nat) (w : Option Char), a.1[i]? = some v → a.2.2[i]? = some w → (v = none ↔ w = none)
+  blank_wc : ∀ (i : Nat) (w : Option Nat), a.1[i]? = some none → a.2.1[i]? = some w → w = none
+  code : ∀ (i : Nat) (ch : Char), a.2.2[i]? = some (some ch) → Ssm.isCode ch = true ∧ ch ∈ templateChars
 
 theorem eqMap_zero_iff (o : Option Nat) : eqMap o = 0 ↔ o = none := by
   cases o with
